@@ -121,7 +121,6 @@ func (s *Service) Start(ctx context.Context) error {
 
 	verifAt(ctx, "srv.Service.Start.claimed", s)
 	s.doStart.Do(func() {
-		defer s.isRunning.Store(true)
 		defer s.verifYield("srv.Service.Start.started")
 		defer s.isStarted.Store(true)
 		ec := &s.ec
